@@ -67,9 +67,13 @@ def function_level(rep: Report, tier: str) -> None:
                 first_in = next((c for c in name if c.isalpha()), None)
                 first_out = next((c for c in out if c.isalpha()), None)
                 if first_in is not None and first_out is not None:
-                    good = first_out.isupper() if is_class else (first_out == first_in)
+                    # (lowerCamelCase starts with a lower-case letter whatever the Python name starts with)
+                    good = first_out.isupper() if is_class else first_out.islower()
                     if good:
                         rep.ok("first-letter-case")
+                    elif not is_class and first_in.isupper():
+                        # the Python name itself starts with a capital letter and the conversion keeps it
+                        rep.violation("first-letter-case", "fn:first-letter-case:other:leading-capital-kept", {"identifier": name, "as": kind, "got": out})
                     else:
                         viol("first-letter-case", {"got": out})
                 try:
